@@ -79,3 +79,19 @@ Proof.
     apply put_no_absent; [apply is_absent_false; exact E|exact Ha]. }
   apply G. constructor.
 Qed.
+
+(* compound assignments: `lhs op= rhs` with BOTH sides absent is skipped (absent op absent = absent for +, ??, ???), so an
+   accumulator stays unset until a present value arrives; and `lhs ??= rhs` never overwrites a present lhs with a different value *)
+Lemma compound_absent_noop st l o e le :
+  lval_as_expr l = Some le -> eval st le = VAbsent -> eval st e = VAbsent ->
+  exists s, compound l o e = Some s /\ exec st s = Ok st.
+Proof.
+  intros Hl Ha He. unfold compound. rewrite Hl. eexists. split; [reflexivity|].
+  apply exec_absent_noop. destruct o; cbn [apply_cop eval]; rewrite Ha, He; reflexivity.
+Qed.
+
+Lemma coalesce_keeps_present st a b : eval st a <> VAbsent -> eval st (ECoalesce a b) = eval st a.
+Proof. intro H. cbn [eval]. destruct (eval st a); try reflexivity. contradiction. Qed.
+
+Lemma coalesce_absent st a b : eval st a = VAbsent -> eval st (ECoalesce a b) = eval st b.
+Proof. intro H. cbn [eval]. rewrite H. reflexivity. Qed.
